@@ -308,6 +308,19 @@ func runC13(seed int64, tier string, sc *Script) map[string]any {
 			evals++
 			repoName := []string{"a/b", "a/b", "c/d"}[rng.Intn(3)]
 			repo := c.repos[repoName]
+			// a reference may be given fully qualified (registry/repository:tag or
+			// registry/repository@digest) wherever a tag or digest is accepted: same meaning
+			fq := func(ref string) string {
+				if rng.Intn(4) != 0 {
+					return ref
+				}
+				sc.Count("ref-form:fully-qualified")
+				sep := ":"
+				if strings.Contains(ref, ":") {
+					sep = "@"
+				}
+				return repo.Reference.Registry + "/" + repoName + sep + ref
+			}
 			b := pick()
 			// occasionally arm a one-field corruption for read-type calls
 			corrupt := ""
@@ -375,7 +388,7 @@ func runC13(seed int64, tier string, sc *Script) map[string]any {
 				mk := c.mark()
 				if c.isManifest(mt) && rng.Intn(3) == 0 {
 					t := tags[rng.Intn(len(tags))]
-					err := repo.PushReference(ctx, d, bytes.NewReader(content.bytes), t)
+					err := repo.PushReference(ctx, d, bytes.NewReader(content.bytes), fq(t))
 					c.finish(mk, resOK(c, err), "rm push repo=%s mt=%s dig=%d size=%d body=%d ref=%s", repoName, mt, b.id, size, content.id, t)
 				} else {
 					var rd io.Reader = bytes.NewReader(content.bytes)
@@ -435,7 +448,7 @@ func runC13(seed int64, tier string, sc *Script) map[string]any {
 				var d ocispec.Descriptor
 				var err error
 				if store == "man" {
-					d, err = repo.Resolve(ctx, refStr)
+					d, err = repo.Resolve(ctx, fq(refStr))
 				} else {
 					d, err = repo.Blobs().Resolve(ctx, refStr)
 				}
@@ -465,7 +478,7 @@ func runC13(seed int64, tier string, sc *Script) map[string]any {
 				var rc io.ReadCloser
 				var err error
 				if store == "man" {
-					d, rc, err = repo.FetchReference(ctx, refStr)
+					d, rc, err = repo.FetchReference(ctx, fq(refStr))
 				} else {
 					d, rc, err = repo.Blobs().FetchReference(ctx, refStr)
 				}
@@ -495,7 +508,7 @@ func runC13(seed int64, tier string, sc *Script) map[string]any {
 				t := tags[rng.Intn(len(tags))]
 				arm(true, size)
 				mk := c.mark()
-				err := repo.Tag(ctx, c.desc(mt, b, size), t)
+				err := repo.Tag(ctx, c.desc(mt, b, size), fq(t))
 				c.finish(mk, resOK(c, err), "rm tag repo=%s mt=%s dig=%d size=%d ref=%s", repoName, mt, b.id, size, t)
 				sc.Count("op:tag")
 			case r < 88: // delete
